@@ -233,6 +233,9 @@ type Violation struct {
 func WriteViolation(e Env, v Violation) {
 	if v.FoundBy == "" {
 		v.FoundBy = fmt.Sprintf("seed=%d shard=%d/%d tier=%s", e.Seed, e.Shard, e.NShards, e.Tier)
+		if cfg := os.Getenv("VERIF_BUILDCFG"); cfg != "" {
+			v.FoundBy += " build=" + cfg
+		}
 	}
 	b, _ := json.MarshalIndent(v, "", " ")
 	_ = os.WriteFile(filepath.Join(e.OutDir, fmt.Sprintf("violation-%s-%d.json", v.Property, e.Shard)), b, 0o644)
